@@ -53,10 +53,12 @@ pub(super) fn list_step() {
         let mut list = cell.borrow_mut();
         list.0 += 1;
         if let Some(limit) = list.1 {
-            assert!(
-                list.0 <= limit,
-                "verif: walk over a bucket list exceeded the step limit of {limit}"
-            );
+            if list.0 > limit {
+                // disarm first: the panic may unwind through destructors that walk lists again
+                list.1 = None;
+                drop(list);
+                panic!("verif: walk over a bucket list exceeded the step limit of {limit}");
+            }
         }
     });
 }
